@@ -303,6 +303,51 @@ def expand(item):
     return out
 
 
+def longdouble_worker(mode):
+    """Extended-precision log-likelihoods (nessai.config.livepoints.logl_dtype = 'f16'): values that
+    differ only beyond float64 precision; the threshold is always the exact stored value of a live
+    sample.  Counts removed / strict live set are decided by exact longdouble comparisons."""
+    from nessai import config as _cfg
+    from nessai.samplers.importancesampler import OrderedSamples
+
+    if np.finfo(np.longdouble).eps >= np.finfo(np.float64).eps:
+        return dict(n=0, viol=None)
+    saved = _cfg.livepoints.logl_dtype
+    _cfg.livepoints.logl_dtype = "f16"
+    _cfg.livepoints.reset_properties()
+    n_ev = 0
+    try:
+        one, tiny = np.longdouble(1), np.longdouble(2) ** -60
+        for base_n, k_thr in ((6, 3), (9, 1), (9, 8), (5, 2)):
+            real = OrderedSamples(strict_threshold=mode[0], replace_all=mode[1])
+            vals = [one + tiny * (3 * i + 1) for i in range(base_n)]  # float(v) == 1.0 for all of them
+            a, q = make_batch([0.0] * base_n, 0)
+            a["logL"] = np.array(vals, dtype=np.longdouble)
+            real.add_initial_samples(a, q)
+            thr = real.samples["logL"][k_thr].copy()  # exact stored value of a live sample
+            real.update_log_likelihood_threshold(thr)
+            n_rem = real.remove_samples()
+            n_ev += 3
+            want = base_n if mode[1] else k_thr
+            if int(n_rem) != want:
+                return dict(n=n_ev, viol=(vkey(mode, "reported-number-removed", ("remove",)) + ":longdouble", f"longdouble logL differing only beyond float64: threshold = stored value of sample {k_thr} of {base_n}; reported {int(n_rem)} removed, expected {want} (mode {mode})", {"mode": mode, "longdouble": True}))
+            if mode[0]:
+                b, qb = make_batch([0.0, 0.0], base_n)
+                b["logL"] = np.array([one + tiny * (3 * k_thr), one + tiny * (3 * k_thr + 2)], dtype=np.longdouble)  # just below / just above
+                real.add_samples(b, qb)
+                n_ev += 1
+                live = real.samples["logL"][np.asarray(real.live_points_indices)] if real.live_points_indices is not None else np.array([], dtype=np.longdouble)
+                want_live = np.sort(real.samples["logL"][real.samples["logL"] >= thr])
+                if len(live) != len(want_live) or np.any(np.sort(live) != want_live):
+                    return dict(n=n_ev, viol=(vkey(mode, "strict-live-equals-at-or-above-threshold", ("add", (0.0,))) + ":longdouble", f"longdouble logL: {len(live)} live vs {len(want_live)} at or above the threshold (mode {mode})", {"mode": mode, "longdouble": True}))
+    except Exception as e:
+        return dict(n=n_ev, viol=(vkey(mode, f"raises-{type(e).__name__}", ("remove",)) + ":longdouble", f"{e} (longdouble scenario, mode {mode})", {"mode": mode, "longdouble": True}))
+    finally:
+        _cfg.livepoints.logl_dtype = saved
+        _cfg.livepoints.reset_properties()
+    return dict(n=n_ev, viol=None)
+
+
 def long_history_worker(item):
     """Long structured histories with large batches (ties forced by an 8-value alphabet mixed with
     distinct values); the invariant is evaluated after every event.  The inputs are a fixed function
@@ -443,6 +488,11 @@ def run(ctx):
             ctx.sample({"mode": mode, "longest_word": r["longest"]})
         ctx.sample({"mode": mode, "shortest_word": r["shortest"][0] if r["shortest"] else None})
         exhausted_all &= True
+    # extended-precision log-likelihoods
+    for it, res in ctx.pmap(longdouble_worker, list(MODES)):
+        ctx.count("longdouble_events", res["n"])
+        if res["viol"]:
+            ctx.violation(*res["viol"])
     # long structured histories with large batches
     n_long = 2 if ctx.quick else 12
     length, mb = (150, 30) if ctx.quick else (400, 60)
